@@ -43,6 +43,14 @@ KNOWN_LIBRARY_DEVIATIONS = {
         "empty input ('When input arrays are empty, return 0 by special "
         "case').  The oracle returns empty / zero-padded arrays and the "
         "documented scores (recall 0, false alarm 0, accuracies 0)."),
+    "melody.resample_empty_target_ValueError": (
+        "melody.resample_melody_series with len(times_new) == 0 and "
+        "len(times) > 0 (time bases of different length): the library raises "
+        "ValueError('zero-size array to reduction operation maximum') from "
+        "times_new.max(); resampling onto an empty time base has the obvious "
+        "value (two empty arrays), which the oracle returns.  Not reachable "
+        "from to_cent_voicing / evaluate except through the empty-reference "
+        "case above."),
     "melody.voicing_array_modified_in_place": (
         "melody.freq_to_voicing(frequencies, voicing) with voicing given and "
         "some frequencies == 0 and voicing != 0 there (reached from "
@@ -447,7 +455,7 @@ def g_multipitch_metrics(rng):
     return (rt, rf, et, ef), kw
 
 
-def notes(rng, big=False):
+def notes(rng, big=False, spread=False):
     """reference and estimated notes.  Either the 1/64 s lattice or the 5 ms
     lattice (the latter produces distances that round to exactly 0.05)."""
     unit = rng.choice([1 / 64.0, 0.005])
@@ -455,6 +463,9 @@ def notes(rng, big=False):
     if rng.random() < 0.9:
         nr = max(nr, 1)
     span = rng.choice([4, 12, 40])
+    if spread and not big:  # more notes, fewer collisions: more unique matchings
+        nr = rng.choice([2, 3, 4, 6, 8])
+        span = rng.choice([40, 80, 160, 400])
     ref_iv, ref_p, ref_v = [], [], []
     for _ in range(nr):
         on = rng.randrange(0, span)
@@ -462,21 +473,29 @@ def notes(rng, big=False):
         ref_iv.append([on * unit, (on + dur) * unit])
         ref_p.append(grid_midi(rng, 50, 60) if rng.random() < 0.7 else 55.0)
         ref_v.append(float(rng.randrange(1, 128)))
-    if nr > 1 and rng.random() < 0.3:  # duplicated note
+    if nr > 1 and rng.random() < (0.1 if spread else 0.3):  # duplicated note
         k = rng.randrange(nr)
         ref_iv.append(list(ref_iv[k]))
         ref_p.append(ref_p[k])
         ref_v.append(ref_v[k])
     est_iv, est_p, est_v = [], [], []
     a, b = rng.choice([1.0, 0.5, 2.0]), rng.choice([0.0, 10.0, -5.0])
+    d_on = [0, 0, 1, -1, 2, -2, 3, 4, 10, -10, 11, 9]
+    d_off = [0, 0, 1, -1, 2, -3, 4, 10, -10, 16]
+    d_pitch = DEVIATIONS_8 + [0, 0, 1, -1, 3, -3]
+    copies = [0, 1, 1, 1, 2]
+    if spread:  # estimates close to their reference note: most pairs match
+        d_on, d_off = [0, 0, 1, -1, 2, -2, 3], [0, 0, 1, -1, 2, -3]
+        d_pitch = [0, 0, 0, 1, -1, 2, -2, 3, -3, 5, 96]
+        copies = [1, 1, 1, 1, 1, 1, 0, 2]
     for k in range(len(ref_iv)):
-        for _ in range(rng.choice([0, 1, 1, 1, 2])):
-            on = ref_iv[k][0] / unit + rng.choice([0, 0, 1, -1, 2, -2, 3, 4, 10, -10, 11, 9])
+        for _ in range(rng.choice(copies)):
+            on = ref_iv[k][0] / unit + rng.choice(d_on)
             on = max(0, int(round(on)))
-            off = ref_iv[k][1] / unit + rng.choice([0, 0, 1, -1, 2, -3, 4, 10, -10, 16])
+            off = ref_iv[k][1] / unit + rng.choice(d_off)
             off = max(on + 1, int(round(off)))
             est_iv.append([on * unit, off * unit])
-            est_p.append(ref_p[k] + rng.choice(DEVIATIONS_8 + [0, 0, 1, -1, 3, -3]) / 8.0)
+            est_p.append(ref_p[k] + rng.choice(d_pitch) / 8.0)
             est_v.append(max(0.0, float(round(a * ref_v[k] + b + rng.choice([0, 0, 1, -3, 8, -15, 30])))))
     for _ in range(rng.choice([0, 0, 1, 2])):
         on = rng.randrange(0, span)
@@ -547,7 +566,7 @@ def g_aor(rng):
 
 
 def g_velocity(rng):
-    ri, rp, rv, ei, ep, ev, unit = notes(rng, big=rng.random() < 0.05)
+    ri, rp, rv, ei, ep, ev, unit = notes(rng, big=rng.random() < 0.05, spread=rng.random() < 0.8)
     kw = note_kwargs(rng, unit)
     if rng.random() < 0.5:
         kw["velocity_tolerance"] = rng.choice([0.1, 0.05, 0.2, 0.02])
@@ -570,7 +589,14 @@ def _p_multipitch_negative(name, args, kwargs, lib, orc):
             and lib[0] == "ok" and orc[0] == "raise" and orc[1] == "ValueError")
 
 
+def _p_resample_empty_target(name, args, kwargs, lib, orc):
+    return (name == "melody.resample_melody_series" and len(args[3]) == 0
+            and len(args[0]) > 0 and lib[0] == "raise" and lib[1] == "ValueError"
+            and orc[0] == "ok")
+
+
 _KNOWN_PREDICATES = {
+    "melody.resample_empty_target_ValueError": _p_resample_empty_target,
     "melody.empty_series_IndexError": _p_melody_empty,
     "multipitch.negative_frequency_accepted": _p_multipitch_negative,
 }
